@@ -21,8 +21,9 @@ def run(ctx, chk, tier):
     chk.trusted |= {"numpy.nextafter(x, +-inf) is strictly beyond x", "masked stores apply in program order", "floor/ceil/minimum/maximum"}
     chk.assumptions = ["exact real arithmetic: floating-point rounding of the easy-sample rescale is not modelled (the repaired D11 defect was of that kind)",
                        "C01 holds (the metric term is the object's own rate)"]
-    reps = list(SCORE_REPS.items())
-    easy = EASY_REPS if tier == "thorough" else EASY_REPS[:3]
+    from .thr import reps_for, easy_for
+    reps = reps_for(tier)
+    easy = easy_for(tier)
     for metric in METRICS:
         q = SCORES + ".threshold_at_" + metric
         for sc, ec in GAMMAS:
